@@ -30,6 +30,8 @@ def required_cells(tier):
     for s in ("L,L/parallel-distinct", "L,L/coincident", "L,L/skew", "L,L/crossing", "L,PL/in-plane", "L,PL/parallel-off-plane",
               "L,PL/crossing", "PL,L/parallel-off-plane"):
         req["scen:" + s] = 20
+    for hc in ("used-then-moved/receiver", "used-then-moved/returned", "moved/receiver"):
+        req["pose:history/" + hc] = 30
     return req
 
 
@@ -44,7 +46,7 @@ def cases(rng, budget, widx, nworkers, tier):
             a = gen.rand_flat(rng, "L")
             b = ("L", K.add(a[1], K.mul(a[2], rng.choice((0, 1, -2, gen.F(1, 2))))), K.mul(a[2], rng.choice((1, -1, 3, gen.F(1, 2)))))
             label = "coincident"
-        yield {"a": a, "b": b, "label": label, "ls": rng.getrandbits(30)}
+        yield C.maybe_hist({"a": a, "b": b, "label": label, "ls": rng.getrandbits(30)}, rng)
 
 
 def _scen(a, b):
@@ -78,6 +80,7 @@ def judge(case):
     mu = core.Multi()
     key = "%s,%s" % (ka, kb)
     mu.cell("pair:" + key, "pair:%s/%s" % (key, "zero" if d2 == 0 else "positive"), "gen:" + case["label"])
+    mu.cell(*C.hist_cell(case))
     sc = _scen(a, b)
     if sc:
         mu.cell("scen:" + sc)
